@@ -73,3 +73,16 @@ Proof.
     specialize (H U). lia.
   - exists b, v. exact E.
 Qed.
+
+(* what cgenerator emits: with pragmas.nodce everything, otherwise exactly the definitions reachable from a root
+   (the early `return` of visitors.FuncDef as scraped: funcdef_dce_condition_found) *)
+Theorem emitted_iff_nodce_or_reachable g U s fuel nodce :
+  (forall n, In n U -> forall u, In u (usedby g n) -> In u U) -> In s U -> (length U <= fuel)%nat ->
+  exists b, emitted fuel g nodce s = Some b /\ (b = true <-> nodce = true \/ reach g s).
+Proof.
+  intros Hc Hs Hf. unfold emitted. change funcdef_dce_condition_found with true. cbn [negb].
+  destruct nodce.
+  - exists true. split; [reflexivity|]. split; auto.
+  - destruct (is_used_fuel_adequate g U s fuel Hc Hs Hf) as (b & v & E). rewrite E. exists b. split; [reflexivity|].
+    rewrite (is_used_iff _ _ _ _ _ E). split; [auto|]. intros [H|H]; [discriminate|exact H].
+Qed.
